@@ -16,6 +16,7 @@ import (
 	"github.com/alpacahq/marketstore/v4/utils"
 	"github.com/alpacahq/marketstore/v4/utils/io"
 	"github.com/alpacahq/marketstore/v4/utils/log"
+	"github.com/alpacahq/marketstore/v4/utils/verifhook"
 )
 
 // Writer is produced that complies with the parsed query results, including a possible date
@@ -240,6 +241,7 @@ func WriteBufferToFileIndirect(fp stdio.ReadWriteSeeker, buffer wal.OffsetIndexB
 
 	// log.Info("LAL end_off:%d, len:%d, data:%v", endOfFileOffset, dataLen, dataToBeWritten)
 
+	verifhook.At("writer.indirect.data_written")
 	/*
 		Write the indirect record info at the primaryOffset
 	*/
